@@ -18,6 +18,49 @@ func MembershipProof.DigestVerify
   ensures C02/accept-implies-exists-and-ordered: result ==> p.Exists && p.ActualVersion <= p.QueryVersion
   ensures C02/accept-implies-parts: result ==> p.HyperProof != nil && p.HistoryProof != nil
 
+// ---- C05: versions are dense, ordered, assigned once (sequential history) -----------
+
+immutable Balloon.store, Balloon.hasherF, Balloon.log by NewBalloonWithLogger
+immutable Balloon.historyTree, Balloon.hyperTree by NewBalloonWithLogger, Balloon.Close
+
+func Balloon.Version
+  props C05
+  ensures result == b.version
+
+// one event: it gets the current version, the version advances by one
+func Balloon.Add
+  props C05
+  requires b.historyTree != nil && b.hyperTree != nil
+  modifies everything
+  ensures C05/version-advances: b.version == old(b.version) + 1
+  ensures C05/snapshot-version: isnil(result_2) ==> result_0 != nil && result_0.Version == old(b.version) && result_0.EventDigest == eventDigest
+
+// a bulk of m events gets m consecutive versions in request order
+func Balloon.AddBulk
+  props C05 C11
+  requires len(eventBulkDigest) > 0
+  requires b.historyTree != nil && b.hyperTree != nil
+  modifies everything
+  ensures C05/version-advances: b.version == old(b.version) + uint64(len(eventBulkDigest))
+  ensures C05/one-snapshot-per-event: isnil(result_2) ==> len(result_0) == len(eventBulkDigest)
+  ensures C05/consecutive-versions: isnil(result_2) ==> forall k int :: 0 <= k && k < len(eventBulkDigest) ==> result_0[k] != nil && result_0[k].Version == old(b.version) + uint64(k) && result_0[k].EventDigest == eventBulkDigest[k]
+  loop 1 modifies nothing
+  loop 1 invariant len(snapshotBulk) == rangeindex + 1 && rangeindex < len(eventBulkDigest) && len(historyDigests) == len(eventBulkDigest)
+  loop 1 invariant forall k int :: 0 <= k && k < len(snapshotBulk) ==> snapshotBulk[k] != nil && snapshotBulk[k].Version == initialVersion + uint64(k) && snapshotBulk[k].EventDigest == eventBulkDigest[k]
+
+// the version is re-established from the last leaf key of the history table
+func Balloon.RefreshVersion
+  props C05
+  requires !isnil(b.store)
+  modifies b.version
+
+// C03: a consistency proof is only attempted for 0 <= start <= end < version
+func Balloon.QueryConsistency
+  props C03
+  requires b.historyTree != nil && b.hasherF != nil
+  modifies everything
+  ensures C03/range-check: (start >= old(b.version) || end >= old(b.version) || start > end) ==> result_0 == nil && !isnil(result_1)
+
 func NewMembershipProof
   props C02 C12 C13
   ensures result != nil && fresh(result)
